@@ -511,6 +511,7 @@ CHECKS = {
             mc("list-names", "MC_C17.tla", dict(quick="MC_C17_quick.cfg", thorough="MC_C17_thorough.cfg")),
             lang("lists", "rich", 4000, 120000, ["--nctx", "6", "--depth", "2", "--listpct", "70", "--badname", "30"], shards=SH),
             mc("histories", "MC_C08.tla", dict(quick="MC_C08_quick.cfg", thorough="MC_C08_thorough.cfg"), replay_cmd="replay-hist"),
+            mc("list-state-histories", "MC_C17r.tla", "MC_C17r.cfg", replay_cmd="replay-hist"),
             trace("list-histories", "Trace_Ctx", ["gen-hist", "--len", "50", "--listpct", "25"], 30, 800, shards=SH),
         ],
     ),
